@@ -304,3 +304,17 @@ mod test {
     //     }
     // }
 }
+
+#[cfg(feature = "verif-snapshot")]
+impl Outgoing {
+    /// (inflight (pkid, filter idx, cursor), last pkid, unacked pubrels, shared buffer length)
+    #[allow(clippy::type_complexity)]
+    pub fn verif_state(&self) -> (Vec<(u16, FilterIdx, Option<Cursor>)>, u16, Vec<u16>, usize) {
+        (
+            self.inflight_buffer.iter().cloned().collect(),
+            self.last_pkid,
+            self.unacked_pubrels.iter().cloned().collect(),
+            self.data_buffer.lock().len(),
+        )
+    }
+}
